@@ -78,6 +78,79 @@ Theorem C01_nearest_int8_bfloat16 : C01_float_statement 8 128 NumB16 bf16_code.
 Proof. exact (qint8_nearest_float 8 128 Hp8 Hpe8 ltac:(lia) ltac:(lia)). Qed.
 Print Assumptions C01_nearest_int8_bfloat16.
 
+(* (6) IEEE arithmetic, last sentence of the property: for float32 and float16 sources, quantizing the
+       dequantized value again with the same scale yields the same code - for EVERY finite x and every
+       finite positive scale with a representable grid.  (Not claimed for bfloat16, as in the property.) *)
+From QV Require Import Proofs.C01Requant.
+Definition C01_requant_statement (prec emax : Z) (NF : Num (binary_float prec emax)) : Prop :=
+  forall x s : binary_float prec emax,
+  is_finite x = true -> is_finite s = true -> (0 < B2R s)%R -> (128 * B2R s <= Fmax prec emax)%R ->
+  @symq _ NF qint8 (@symdq _ NF qint8 x s) s = @symq _ NF qint8 x s.
+
+Theorem C01_requant_stable_float32 : C01_requant_statement 24 128 Num32.
+Proof. exact (qint8_requant_stable 24 128 Hp24 Hpe24 ltac:(lia) ltac:(lia)). Qed.
+Print Assumptions C01_requant_stable_float32.
+
+Theorem C01_requant_stable_float16 : C01_requant_statement 11 16 Num16.
+Proof. exact (qint8_requant_stable 11 16 Hp11 Hpe11 ltac:(lia) ltac:(lia)). Qed.
+Print Assumptions C01_requant_stable_float16.
+
+(* (7) IEEE arithmetic, the float8 types.  Working format float32 / float16 / bfloat16; the storage grid
+       G8 p2 e2 sh M is the set of reals v with v*2^sh in Flocq's format (p2, e2) and |v| <= M:
+       e5m2 = (3, 16) at scale 1 up to 57344; e4m3fn = (4, 9) at half scale up to 448 (no infinities).
+       For EVERY finite x and every finite positive scale with a representable grid (M*s <= largest float):
+       the stored code is a grid point, code and dequantized value are finite, and the dequantized value is
+       within the stated rounding slack of a closest point of the scaled grid {s*v}; the float quotient is
+       rounded once before the cast (double rounding) - that is inside the slack; a quotient beyond the
+       grid, or overflowing to infinity, saturates to the end point +-M (cases of the proof). *)
+From QV Require Import Proofs.C01Float8.
+From Coq Require Import Lra.
+Definition C01_float8_statement (prec emax : Z) (NF : Num (binary_float prec emax)) (q : qtype) (p2 e2 sh M : Z) : Prop :=
+  forall x s : binary_float prec emax,
+  is_finite x = true -> is_finite s = true -> (0 < B2R s)%R -> (IZR M * B2R s <= Fmax prec emax)%R ->
+  G8 p2 e2 sh M (B2R (@symq _ NF q x s)) /\ is_finite (@symq _ NF q x s) = true /\ is_finite (@symdq _ NF q x s) = true /\
+  forall v : R, G8 p2 e2 sh M v ->
+    (Rabs (B2R (@symdq _ NF q x s) - B2R x) <=
+     Rabs (B2R s * v - B2R x)
+     + (2 * (uro prec * Rabs (B2R x) + B2R s * eta prec emax)
+        + (uro prec * Rabs (B2R s * B2R (@symq _ NF q x s)) + eta prec emax)))%R.
+
+Theorem C01_nearest_e4m3_float32 : C01_float8_statement 24 128 Num32 qfloat8_e4m3fn 4 9 (-1) 448.
+Proof. exact (e4m3_nearest 24 128 Hp24 Hpe24 ltac:(lia) ltac:(lia)). Qed.
+Print Assumptions C01_nearest_e4m3_float32.
+Theorem C01_nearest_e4m3_float16 : C01_float8_statement 11 16 Num16 qfloat8_e4m3fn 4 9 (-1) 448.
+Proof. exact (e4m3_nearest 11 16 Hp11 Hpe11 ltac:(lia) ltac:(lia)). Qed.
+Print Assumptions C01_nearest_e4m3_float16.
+Theorem C01_nearest_e4m3_bfloat16 : C01_float8_statement 8 128 NumB16 qfloat8_e4m3fn 4 9 (-1) 448.
+Proof. exact (e4m3_nearest 8 128 Hp8 Hpe8 ltac:(lia) ltac:(lia)). Qed.
+Print Assumptions C01_nearest_e4m3_bfloat16.
+Theorem C01_nearest_e5m2_float32 : C01_float8_statement 24 128 Num32 qfloat8_e5m2 3 16 0 57344.
+Proof. exact (e5m2_nearest 24 128 Hp24 Hpe24 ltac:(lia) ltac:(lia) ltac:(lia)). Qed.
+Print Assumptions C01_nearest_e5m2_float32.
+Theorem C01_nearest_e5m2_float16 : C01_float8_statement 11 16 Num16 qfloat8_e5m2 3 16 0 57344.
+Proof. exact (e5m2_nearest 11 16 Hp11 Hpe11 ltac:(lia) ltac:(lia) ltac:(lia)). Qed.
+Print Assumptions C01_nearest_e5m2_float16.
+Theorem C01_nearest_e5m2_bfloat16 : C01_float8_statement 8 128 NumB16 qfloat8_e5m2 3 16 0 57344.
+Proof. exact (e5m2_nearest 8 128 Hp8 Hpe8 ltac:(lia) ltac:(lia) ltac:(lia)). Qed.
+Print Assumptions C01_nearest_e5m2_bfloat16.
+
+(* non-vacuity of (7): 1.5 is a point of both grids, 449 and 3 * 2^-11 are not points of the e4m3fn grid;
+   float16 x = 0.3, s = 0.01 gives the e4m3fn byte of 30.0 *)
+Example C01_float8_grid_examples :
+  G8 4 9 (-1) 448 1.5 /\ G8 3 16 0 57344 1.5 /\ ~ G8 4 9 (-1) 448 449 /\
+  f16_code SE4M3 (@symq _ Num16 qfloat8_e4m3fn (f16_of_bits 13517) (f16_of_bits 8479)) = 95%Z.
+Proof.
+  split; [|split; [|split]].
+  - split; [|rewrite Rabs_pos_eq; lra].
+    replace (1.5 * bpow radix2 (-1))%R with (F2R (Float radix2 3 (-2))) by (unfold F2R; simpl; lra).
+    apply generic_format_F2R. intros _. unfold cexp. rewrite (mag_F2R_Zdigits radix2 3 (-2)) by lia. vm_compute. discriminate.
+  - split; [|rewrite Rabs_pos_eq; lra].
+    replace (1.5 * bpow radix2 0)%R with (F2R (Float radix2 3 (-1))) by (unfold F2R; simpl; lra).
+    apply generic_format_F2R. intros _. unfold cexp. rewrite (mag_F2R_Zdigits radix2 3 (-1)) by lia. vm_compute. discriminate.
+  - intros [_ H]. rewrite Rabs_pos_eq in H; lra.
+  - vm_compute. reflexivity.
+Qed.
+
 (* non-vacuity: float16 x = 0.3, s = 0.01 satisfy the hypotheses; x = 3.0 saturates at code 127 *)
 Example C01_float_hyps_satisfiable :
   let x := f16_of_bits 13517 in let s := f16_of_bits 8479 in
